@@ -12,13 +12,23 @@ def g1(E, k, d=None):
     return next(iter(v)) if v else d
 
 
-class BlastHooks(QHooks):
-    tracked = frozenset(['G:line'])
-    precise = frozenset(['P:limit', 'G:line.len'])
+def g1v(v):
+    return next(iter(v)) if v is not TOP and v is not None and len(v) == 1 else None
 
-    def __init__(self):
+
+class BlastHooks(QHooks):
+    """blast() over every sequence of up to 4 lines (empty / starting with "." / other; terminated or not) and a
+    limit: the bytes written, as a sequence of tokens, against the documented encoder"""
+    tracked = frozenset(['G:line'])
+
+    def __init__(self, limit):
+        self.limit = limit
         self.sites = {}
         self.lines = 0
+        self.returns = 0
+
+    def precise_arith(self, path):
+        return True
 
     def site(self, inst, x, ok, detail, E):
         prev = self.sites.get(inst)
@@ -27,118 +37,247 @@ class BlastHooks(QHooks):
         if not ok:
             E.kill()
 
-    def end_line(self, E, x):
-        cur = g1(E, '$cur')
-        if cur is None:
-            return
-        kind, first = cur
-        out = tuple(g1(E, '$out', ()))
-        want = (('dot',) if (kind != 'empty' and first == 'dot') else ()) + (('line',) if True else ()) + ('crlf',)
-        if g1(E, '$cut'):
-            want_any = [(), want]
-        else:
-            want_any = [want]
-        self.site('each-line:leading-dot-stuffed,line,CRLF', x, out in want_any,
-                  'a %s line starting with %s is sent as %s (expected %s): a line consisting of "." would end the message for the client' % (kind, first, list(out), list(want)), E)
-        E.set('$cur', TOP)
-        E.set('$out', fs(()))
+    def materialize(self, E, path):
+        if path == 'G:line.s':
+            return fs(('&', 'G:line.s[0]'))
+        return TOP
 
     def prim_getln(self, E, x, args):
-        self.end_line(E, x)
         self.lines += 1
-        mp = None
-        if args[2] is not TOP and len(args[2]) == 1:
-            (a,) = args[2]
-            if isinstance(a, tuple) and a[0] == '&':
-                mp = a[1]
-        outs = [Outcome(ret=fs(-1)), Outcome(ret=fs(0), sets={mp: fs(0), 'G:line.len': fs(0), '$cur': TOP, '$eof': fs(1)}, log='end of message')]
-        nlines = g1(E, '$n', 0)
-        if nlines >= 4:
+        mp = g1v(args[2])
+        mp = mp[1] if isinstance(mp, tuple) and mp[0] == '&' else None
+        if mp is None:
+            raise AnalysisBroken('pop3d blast: getln() match pointer not an object address')
+        inp = tuple(g1(E, '$in', ()))
+        outs = [Outcome(ret=fs(-1)), Outcome(ret=fs(0), sets={mp: fs(0), 'G:line.len': fs(0), '$in': fs(inp + (('eof', None, 0),))}, log='end of message')]
+        if len(inp) >= 4:
             return outs
         for match in (1, 0):
             for kind, ln, first in (('empty', 0, None), ('text', 2, 'dot'), ('text', 2, 'x')):
                 if match == 0 and kind == 'empty':
                     continue
-                st = {mp: fs(match), 'G:line.len': fs(ln + match), '$cur': fs((kind, first)), '$out': fs(()), '$n': fs(nlines + 1)}
-                if first:
-                    st['G:line.s[0]'] = fs(DOT if first == 'dot' else ord('x'))
+                st = {mp: fs(match), 'G:line.len': fs(ln + match), '$in': fs(inp + ((kind, first, match),))}
+                st['G:line.s[0]'] = fs(DOT if first == 'dot' else ord('x')) if first else fs(10)
                 outs.append(Outcome(ret=fs(0), sets=st, log='line: %s%s%s' % (kind, ' starting with "."' if first == 'dot' else '', '' if match else ' (unterminated)')))
         return outs
 
     def prim_put(self, E, x, args):
-        lit = x.args[0].string
-        n = x.args[1].const
+        v0, n = g1v(args[0]), g1v(args[1])
         out = tuple(g1(E, '$out', ()))
-        if lit is not None:
-            data = lit[:n] if n is not None else lit
-            if data == '.':
-                out += ('dot',)
-            elif data == '\r\n':
-                out += ('crlf',)
-            elif data == '\r\n.\r\n':
-                self.end_line(E, x)
-                E.set('$end', fs(min(g1(E, '$end', 0) + 1, 2)))
-                return [Outcome(ret=TOP)]
-            else:
-                out += (('lit', data),)
-        elif x.args[0].path() == 'G:line.s' and x.args[1].path() == 'G:line.len':
-            out += ('line',)
+        cur = len(tuple(g1(E, '$in', ()))) - 1
+        if isinstance(v0, tuple) and v0[0] == 'str' and isinstance(n, int):
+            data = v0[1][:n]
+            out += ({'.': 'dot', '\r\n': 'crlf', '\r\n.\r\n': 'end'}.get(data, ('lit', data)),)
+        elif v0 == ('&', 'G:line.s[0]') and n is not None and n == g1(E, 'G:line.len'):
+            out += (('line', cur),)
         else:
             out += (('other', x.args[0].src()),)
         E.set('$out', fs(out))
         return [Outcome(ret=TOP)]
 
+    def prim_puts(self, E, x, args):
+        v0 = g1v(args[0])
+        if isinstance(v0, tuple) and v0[0] == 'str':
+            return self.prim_put(E, x, [args[0], fs(len(v0[1]))])
+        E.set('$out', fs(tuple(g1(E, '$out', ())) + (('other', x.args[0].src()),)))
+        return [Outcome(ret=TOP)]
+
     def prim_flush(self, E, x, args):
-        E.set('$flushed', fs(1))
+        E.set('$out', fs(tuple(g1(E, '$out', ())) + ('flush',)))
         return [Outcome(ret=TOP)]
 
     def prim_die(self, E, x, args):
         return 'noreturn'
 
-    def on_assign(self, E, x, path, val):
-        if path.endswith('::P:limit'):
-            inh = None
-            for p, v in E.store.items():
-                if '::L:inheaders' in p and v is not TOP and len(v) == 1:
-                    inh = next(iter(v))
-            self.site('TOP-limit-counts-body-lines-only', x, inh == 0, 'limit is decremented while inheaders=%s' % inh, E)
-            if val == fs(0):
-                E.set('$cut', fs(1))
+    @staticmethod
+    def reference(lines, limit):
+        out = []
+        inhdr = True
+        for idx, (kind, first, match) in enumerate(lines):
+            if kind == 'eof':
+                break
+            if limit and not inhdr:
+                limit -= 1
+                if not limit:
+                    break
+            if kind == 'empty':
+                inhdr = False
+            elif first == 'dot':
+                out.append('dot')
+            out.append(('line', idx))
+            out.append('crlf')
+            if not match:
+                break
+        return tuple(out) + ('end', 'flush')
 
     def on_return(self, E, fn, val):
-        self.site('message-ends-with-CRLF.CRLF-once-and-flush', None, g1(E, '$end', 0) == 1 and g1(E, '$flushed', 0) == 1,
-                  'terminator written %s time(s), flushed=%s' % (g1(E, '$end', 0), g1(E, '$flushed', 0)), E)
+        if fn.name != 'blast':
+            return
+        self.returns += 1
+        inp = tuple(g1(E, '$in', ()))
+        out = tuple(g1(E, '$out', ()))
+        want = self.reference(inp, self.limit)
+        self.site('output=documented-encoding(lines,limit)', None, out == want,
+                  'for the lines %s with limit %d blast() writes %s; documented: %s (every non-empty line starting with "." gets an extra ".", then the line, then CRLF; '
+                  'limit counts body lines only; CRLF.CRLF once, then a flush)' % (list(inp), self.limit, list(out), list(want)), E)
 
 
-class MsgnoHooks(QHooks):
-    tracked = frozenset(['G:numm'])
-    precise = frozenset(['L:u'])
+class TableHooks(QHooks):
+    """the message table m[0..numm-1] as an object M: every access is checked against the bounds, marks are split 0/1"""
+    NUMM = 3
 
     def __init__(self):
-        self.res = {}
+        self.sites = {}
+        self.events = []
+        self.returns = []
 
+    def tracked_global(self, path):
+        return True
+
+    def precise_arith(self, path):
+        return True
+
+    def site(self, inst, x, ok, detail, E):
+        prev = self.sites.get(inst)
+        if prev is None or (prev[0] and not ok):
+            self.sites[inst] = (ok, x.where if x is not None else 'qmail-pop3d.c', detail, E.trace.list() if not ok else [])
+        if not ok:
+            E.kill()
+
+    @staticmethod
+    def index(path):
+        import re
+        mm = re.match(r'^M\[(-?\d+)\]', path)
+        return int(mm.group(1)) if mm else None
+
+    def bounds(self, E, x, path):
+        if path.startswith('M['):
+            k = self.index(path)
+            self.site('m[]-indexed-only-within-0..numm-1', x, k is not None and 0 <= k < self.NUMM,
+                      'the message table (numm = %d) is accessed at %s: memory outside the table is read or written' % (self.NUMM, path), E)
+
+    def materialize(self, E, path):
+        if path == 'G:m':
+            return fs(('&', 'M[0]'))
+        if path == 'G:numm':
+            return fs(self.NUMM)
+        if path.startswith('M['):
+            self.bounds(E, None, path)
+            if path.endswith('.fn'):
+                return fs(('&', 'FN%s[0]' % self.index(path)))
+        return TOP
+
+    def materialize_split(self, E, path):
+        if path.startswith('M[') and path.endswith('.flagdeleted'):
+            self.bounds(E, None, path)
+            return [fs(0), fs(1)]
+        return None
+
+    def on_assign(self, E, x, path, val):
+        if path.startswith('M['):
+            self.bounds(E, x, path)
+            E.set('$w', fs(tuple(g1(E, '$w', ())) + ((path, g1v(val)),)))
+
+    def _out(self, E, x, args):
+        return [Outcome(ret=TOP)]
+
+    prim_put = prim_puts = prim_flush = prim_okay = prim_err = prim_err_syntax = prim_err_nozero = prim_err_toobig = prim_err_deleted = _out
+    prim_err_nosuch = prim_err_nounlink = prim_printfn = prim_blast = prim_substdio_fdbuf = prim_close = _out
+
+    def prim_die(self, E, x, args):
+        self.on_return(E, x.fn, None)
+        return 'noreturn'
+
+    def prim_die_nomem(self, E, x, args):
+        return 'noreturn'
+
+    def on_return(self, E, fn, val):
+        if fn.name == self.entry:
+            self.returns.append((dict((k, g1v(v)) for k, v in E.store.items() if k.startswith('M[') or k.startswith('$')), g1v(val) if val is not None else None, E.trace.list()))
+
+
+class MsgnoHooks(TableHooks):
     def prim_scan_ulong(self, E, x, args):
-        up = None
-        if args[1] is not TOP and len(args[1]) == 1:
-            (a,) = args[1]
-            if isinstance(a, tuple) and a[0] == '&':
-                up = a[1]
+        up = g1v(args[1])
+        up = up[1] if isinstance(up, tuple) and up[0] == '&' else None
         outs = [Outcome(ret=fs(0), sets={'$in': fs('noscan')})]
         for u in (0, 1, 3, 4, 2 ** 31, 2 ** 31 + 5):
             outs.append(Outcome(ret=fs(1), sets={up: fs(u), '$in': fs(u)}))
         return outs
 
-    def on_branch(self, E, cond, truth):
-        if cond.src().endswith('.flagdeleted'):
-            E.set('$deleted', fs(1 if truth else 0))
 
-    def _err(self, E, x, args):
-        return [Outcome(ret=TOP)]
+class CallerHooks(TableHooks):
+    """DELE / LIST / UIDL / TOP: msgno() is an event answering -1 or an index"""
+    def prim_msgno(self, E, x, args):
+        return [Outcome(ret=fs(-1), sets={'$msgno': fs(-1)})] + [Outcome(ret=fs(k), sets={'$msgno': fs(k)}) for k in range(self.NUMM)]
 
-    prim_err_syntax = prim_err_nozero = prim_err_toobig = prim_err_deleted = _err
+    def prim_scan_ulong(self, E, x, args):
+        return [Outcome(ret=fs(0)), Outcome(ret=fs(1), havoc=self._arg_roots(E, x, args))]
 
-    def on_return(self, E, fn, val):
-        self.res.setdefault(g1(E, '$in'), set()).add((next(iter(val)) if val is not TOP and len(val) == 1 else '?', g1(E, '$deleted')))
+    def prim_open_read(self, E, x, args):
+        v = g1v(args[0])
+        E.set('$opened', fs(v))
+        return [Outcome(ret=fs(-1)), Outcome(ret=fs(('fd', 'msg')))]
+
+
+class QuitHooks(TableHooks):
+    def prim_str_start(self, E, x, args):
+        v = g1v(args[0])
+        lit = g1v(args[1])
+        k = int(v[1][2:v[1].index('[')]) if isinstance(v, tuple) and v[0] == '&' and v[1].startswith('FN') else None
+        if k is None or lit != ('str', 'new/'):
+            return [Outcome(ret=fs(0)), Outcome(ret=fs(1))]
+        return [Outcome(ret=fs(0), sets={'$new:%d' % k: fs(0)}), Outcome(ret=fs(1), sets={'$new:%d' % k: fs(1)})]
+
+    def _name(self, v):
+        if isinstance(v, tuple) and v[0] == '&' and v[1].startswith('FN'):
+            k = int(v[1][2:v[1].index('[')])
+            off = int(v[1][v[1].index('[') + 1:-1])
+            return ('fn', k, off)
+        if isinstance(v, tuple) and v[0] == 'str':
+            return ('lit', v[1])
+        return ('?', str(v))
+
+    def prim_stralloc_copys(self, E, x, args):
+        sa = g1v(args[0])
+        return [Outcome(ret=fs(0)), Outcome(ret=fs(1), sets={'$sa:%s' % (sa[1] if isinstance(sa, tuple) else sa): fs((self._name(g1v(args[1])),))})]
+
+    def prim_stralloc_cats(self, E, x, args):
+        sa = g1v(args[0])
+        key = '$sa:%s' % (sa[1] if isinstance(sa, tuple) else sa)
+        return [Outcome(ret=fs(0)), Outcome(ret=fs(1), sets={key: fs(tuple(g1(E, key, ())) + (self._name(g1v(args[1])),))})]
+
+    def prim_stralloc_append(self, E, x, args):
+        sa = g1v(args[0])
+        key = '$sa:%s' % (sa[1] if isinstance(sa, tuple) else sa)
+        return [Outcome(ret=fs(0)), Outcome(ret=fs(1), sets={key: fs(tuple(g1(E, key, ())) + (('nul',),))})]
+
+    prim_stralloc_0 = prim_stralloc_append
+
+    def materialize(self, E, path):
+        if path.endswith('.s') and not path.startswith('M['):
+            return fs(('sa', path[:-2]))
+        return super().materialize(E, path)
+
+    def prim_unlink(self, E, x, args):
+        nm = self._name(g1v(args[0]))
+        k = nm[1] if nm[0] == 'fn' and nm[2] == 0 else None
+        ok = k is not None and g1(E, 'M[%d].flagdeleted' % k) == 1 and ('unlink', k) not in tuple(g1(E, '$ev', ()))
+        self.site('QUIT-unlinks-exactly-the-marked-messages', x, ok, 'unlink(%s) for a message with flagdeleted=%s' % (nm, g1(E, 'M[%s].flagdeleted' % k) if k is not None else '?'), E)
+        E.set('$ev', fs(tuple(g1(E, '$ev', ())) + (('unlink', k),)))
+        return [Outcome(ret=fs(0)), Outcome(ret=fs(-1))]
+
+    def prim_rename(self, E, x, args):
+        nm = self._name(g1v(args[0]))
+        k = nm[1] if nm[0] == 'fn' and nm[2] == 0 else None
+        dst = g1v(args[1])
+        built = tuple(g1(E, '$sa:%s' % dst[1], ())) if isinstance(dst, tuple) and dst[0] == 'sa' else None
+        want = (('lit', 'cur/'), ('fn', k, 4), ('lit', ':2,'), ('nul',))
+        ok = k is not None and g1(E, 'M[%d].flagdeleted' % k) == 0 and g1(E, '$new:%d' % k) == 1 and built == want
+        self.site('QUIT-renames-only-undeleted-new/-entries-to-cur/<name>:2,', x, ok,
+                  'rename(%s -> %s) with flagdeleted=%s, in new/=%s' % (nm, list(built) if built else dst, g1(E, 'M[%s].flagdeleted' % k) if k is not None else '?', g1(E, '$new:%s' % k)), E)
+        E.set('$ev', fs(tuple(g1(E, '$ev', ())) + (('rename', k),)))
+        return [Outcome(ret=fs(0)), Outcome(ret=fs(-1))]
 
 
 def run(ctx):
@@ -146,99 +285,135 @@ def run(ctx):
     prog = db.program('qmail-pop3d')
     u = 'qmail-pop3d.c'
     # ---- 1. stuffing
-    r1 = rep.rule('C19.1-stuffing', 'R-TRANSDUCER', 'blast (line level, up to 4 lines, limit 0/1/2): every non-empty line starting with "." is preceded by an extra ".", then the line, then CRLF; the message ends with CRLF.CRLF once and a flush; TOP\'s limit counts body lines only')
+    r1 = rep.rule('C19.1-stuffing', 'R-TRANSDUCER', 'blast (line level, every sequence of up to 4 lines, limit 0/1/2/3): the bytes written equal the documented encoding: every non-empty line starting with "." is preceded by an extra ".", then the line, then CRLF; the limit counts body lines only; CRLF.CRLF once and a flush')
     bl = prog.fn('blast', u)
-    H = BlastHooks()
     st = 0
-    for lim in (0, 1, 2):
+    nret = 0
+    for lim in (0, 1, 2, 3):
+        H = BlastHooks(lim)
         eng = Engine(db, prog, H, max_states=400000)
-        eng.run(bl, {'blast::P:limit': fs(lim)})
+        fid = eng.frame_id(bl)
+        lp = [p_ for p_ in bl.params if 'long' in bl.param_types.get(p_, '')]
+        if len(lp) != 1:
+            raise AnalysisBroken('pop3d blast: the limit parameter was not found')
+        eng.run(bl, {'%s::%s' % (fid, lp[0]): fs(lim)})
         st += eng.states
+        nret += H.returns
         rep.count_states(eng.states, eng.transitions)
-    if H.lines < 3 and all(v[0] for v in H.sites.values()):
-        raise AnalysisBroken('pop3d blast: getln not explored')
-    for inst, v in sorted(H.sites.items()):
-        r1.check(v[0], inst, v[1], v[2], v[3])
-    r1.note(abstract_states=st)
-    r1.expect_min(3)
+        if H.lines < 3 and all(v[0] for v in H.sites.values()):
+            raise AnalysisBroken('pop3d blast: getln not explored')
+        for inst, v in sorted(H.sites.items()):
+            r1.check(v[0], 'limit=%d:%s' % (lim, inst), v[1], v[2], v[3])
+    r1.check(nret >= 400, 'line-sequences-explored', u + ':blast', '%d' % nret)
+    r1.note(abstract_states=st, line_sequences=nret)
+    r1.expect_min(5)
     rep.exhaustive_rules.append('C19.1-stuffing')
 
     # ---- 2. msgno
-    r2 = rep.rule('C19.2-message-numbers', 'R-TABLE', 'msgno (numm = 3): a non-negative result only for 1 <= n <= numm naming an undeleted message, and it is n-1; every caller tests -1 before indexing m[]')
+    r2 = rep.rule('C19.2-message-numbers', 'R-TABLE', 'msgno (numm = 3): a non-negative result only for 1 <= n <= numm naming an undeleted message, and it is n-1; DELE, LIST, UIDL and TOP touch m[] only inside 0..numm-1 and only for the message msgno() named')
     mn = prog.fn('msgno', u)
     MH = MsgnoHooks()
+    MH.entry = 'msgno'
     eng = Engine(db, prog, MH)
-    eng.run(mn, {'G:numm': fs(3)})
+    eng.run(mn, {})
     rep.count_states(eng.states, eng.transitions)
     bad = []
-    for inp, outs in sorted(MH.res.items(), key=lambda kv: str(kv[0])):
-        for ret, deleted in outs:
-            valid = isinstance(inp, int) and 1 <= inp <= 3
-            if valid and deleted == 0:
-                if ret != inp - 1:
-                    bad.append((inp, ret, 'expected %d' % (inp - 1)))
-            elif ret != -1:
-                bad.append((inp, ret, 'expected -1 (deleted=%s)' % deleted))
-    r2.check(len(MH.res) >= 6 and not bad, 'msgno-table', u + ':msgno', 'deviations (input, result): %s' % bad[:5])
-    for caller in ('pop3_dele', 'dolisting', 'pop3_top'):
+    seen_in = set()
+    for store, ret, tr in MH.returns:
+        inp = store.get('$in')
+        seen_in.add(inp)
+        valid = isinstance(inp, int) and 1 <= inp <= 3
+        deleted = store.get('M[%d].flagdeleted' % (inp - 1)) if valid else None
+        if valid and deleted == 0:
+            if ret != inp - 1:
+                bad.append((inp, ret, 'expected %d' % (inp - 1)))
+        elif ret != -1:
+            bad.append((inp, ret, 'expected -1 (deleted=%s)' % deleted))
+    r2.check(len(seen_in) >= 6 and not bad, 'msgno-table', u + ':msgno', 'deviations (input, result): %s' % bad[:5])
+    for inst, v in sorted(MH.sites.items()):
+        r2.check(v[0], 'msgno:' + inst, v[1], v[2], v[3])
+    for caller in ('pop3_dele', 'pop3_list', 'pop3_uidl', 'pop3_top'):
         fn = prog.fn(caller, u)
-        idx = [x for x in fn.all_x() if x.k == 'idx' and x.args[0].path() == 'G:m' and (x.args[1].var or '').startswith('L:i')]
-        calls_list = [c for c in fn.calls('list') if (c.args[0].var or '').startswith('L:i')]
-        uses = idx + calls_list
-        mcalls = fn.calls('msgno')
-        ok = bool(mcalls)
-        n = 0
-        for x in uses:
-            g = fn.guards(x) or []
-            via_msgno = any(c.strip().k == 'bin' and c.strip().op == '==' and c.strip().args[1].const in (-1, 4294967295) and t is False for c, t in g)
-            loop_bound = any(c.strip().k == 'bin' and c.strip().op == '<' and c.strip().args[1].path() == 'G:numm' and t is True for c, t in g)
-            ok = ok and (via_msgno or loop_bound)
-            n += 1
-        r2.check(ok and n > 0, '%s:index-only-after-msgno!=-1-or-under-i<numm' % caller, '%s:%s' % (u, caller), '%d uses of m[i]' % n)
-    r2.expect_min(4)
+        CH = CallerHooks()
+        CH.entry = caller
+        eng = Engine(db, prog, CH)
+        eng.run(fn, {})
+        rep.count_states(eng.states, eng.transitions)
+        if len(CH.returns) < 2 and all(v[0] for v in CH.sites.values()):
+            raise AnalysisBroken('%s: %d returns explored' % (caller, len(CH.returns)))
+        okc = True
+        why = ''
+        for store, ret, tr in CH.returns:
+            k = store.get('$msgno')
+            writes = store.get('$w') or ()
+            if caller == 'pop3_dele':
+                want = ((('M[%d].flagdeleted' % k), 1),) if isinstance(k, int) and k >= 0 else ()
+                if tuple(writes) != want:
+                    okc, why = False, 'msgno()=%s: the table is written as %s (documented: %s)' % (k, list(writes), list(want))
+            elif writes:
+                okc, why = False, '%s writes the table: %s' % (caller, list(writes))
+            if caller == 'pop3_top' and store.get('$opened') is not None and isinstance(k, int) and store.get('$opened') != ('&', 'FN%d[0]' % k):
+                okc, why = False, 'TOP opens %s for message index %s' % (store.get('$opened'), k)
+        r2.check(okc, '%s:acts-only-on-the-message-msgno()-named' % caller, '%s:%s' % (u, caller), why)
+        for inst, v in sorted(CH.sites.items()):
+            r2.check(v[0], '%s:%s' % (caller, inst), v[1], v[2], v[3])
+        if 'm[]-indexed-only-within-0..numm-1' not in CH.sites:
+            r2.ok('%s:m[]-indexed-only-within-0..numm-1' % caller, '%s:%s' % (u, caller))
+    r2.expect_min(9)
 
     # ---- 3. deletion discipline
     r3 = rep.rule('C19.3-deletion', 'R-EFFECT', 'a message file is unlinked only in QUIT for messages marked deleted; a message is marked only by DELE after msgno; RSET clears every mark; only undeleted new/ entries are renamed, to cur/...:2,')
-    unl = []
-    ren = []
-    marks = []
-    clears = []
+    from qv.lib import only_reached_through
+    for target in ('unlink', 'rename'):
+        okr, callers = only_reached_through(prog, u, target, {'pop3_quit'})
+        r3.check(okr and bool(callers), '%s-reachable-only-from-QUIT' % target, u, '%s() is called from %s' % (target, callers))
+    pq = prog.fn('pop3_quit', u)
+    QH = QuitHooks()
+    QH.entry = 'pop3_quit'
+    eng = Engine(db, prog, QH)
+    eng.run(pq, {})
+    rep.count_states(eng.states, eng.transitions)
+    if len(QH.returns) < 8 and all(v[0] for v in QH.sites.values()):
+        raise AnalysisBroken('pop3_quit: %d ends explored' % len(QH.returns))
+    okq, why = True, ''
+    for store, ret, tr in QH.returns:
+        ev = tuple(store.get('$ev') or ())
+        for k in range(QH.NUMM):
+            d = store.get('M[%d].flagdeleted' % k)
+            if d == 1 and ev.count(('unlink', k)) != 1:
+                okq, why = False, 'message %d is marked deleted and QUIT ends with %d unlink() calls for it' % (k, ev.count(('unlink', k)))
+            if d == 0 and store.get('$new:%d' % k) == 1 and ev.count(('rename', k)) != 1:
+                okq, why = False, 'undeleted message %d in new/ is not moved to cur/' % k
+            if d is None:
+                okq, why = False, 'QUIT ends without looking at message %d' % k
+    r3.check(okq, 'QUIT-handles-every-message-once', u + ':pop3_quit', why)
+    for inst, v in sorted(QH.sites.items()):
+        r3.check(v[0], inst, v[1], v[2], v[3])
+    for need in ('QUIT-unlinks-exactly-the-marked-messages', 'QUIT-renames-only-undeleted-new/-entries-to-cur/<name>:2,'):
+        if need not in QH.sites and all(v[0] for v in QH.sites.values()):
+            raise AnalysisBroken('pop3_quit: %s not exercised' % need)
+    # marks: set only by DELE (decided above per path), cleared only by RSET and at start-up
+    marks, clears = [], []
     for fn in prog.functions():
         if fn.unit != u:
             continue
-        for c in fn.calls('unlink'):
-            unl.append((fn, c))
-        for c in fn.calls('rename'):
-            ren.append((fn, c))
         for x in fn.all_x():
-            if x.k == 'asg' and x.args[0].src().endswith('.flagdeleted'):
-                (marks if x.args[1].const == 1 else clears).append((fn, x))
-    ok = len(unl) == 1 and unl[0][0].name == 'pop3_quit' and unl[0][1].args[0].src() == 'm[i].fn' and \
-        any(c.src().endswith('m[i].flagdeleted') and t is True for c, t in unl[0][0].guards(unl[0][1]) or []) and \
-        any(c.strip().k == 'bin' and c.strip().op == '<' and c.strip().args[1].path() == 'G:numm' and t is True for c, t in unl[0][0].guards(unl[0][1]) or [])
-    r3.check(ok, 'unlink-only-in-QUIT-for-marked-messages', u, 'unlink sites: %s' % [(f.name, c.src()) for f, c in unl])
-    ok = len(marks) == 1 and marks[0][0].name == 'pop3_dele' and any(c.strip().k == 'bin' and c.strip().args[1].const == -1 and t is False for c, t in marks[0][0].guards(marks[0][1]) or [])
-    r3.check(ok, 'mark-only-in-DELE-after-msgno', u, 'marking sites: %s' % [(f.name, x.where) for f, x in marks])
-    rs = [(f, x) for f, x in clears if f.name == 'pop3_rset']
-    ok = len(rs) == 1 and any(c.strip().k == 'bin' and c.strip().op == '<' and c.strip().args[1].path() == 'G:numm' and (c.strip().args[0].var or '').startswith('L:i') and t is True for c, t in rs[0][0].guards(rs[0][1]) or [])
-    if rs:
-        f = rs[0][0]
-        init0 = any(x.k == 'asg' and x.op == '=' and (x.args[0].var or '').startswith('L:i') and x.args[1].const == 0 for x in f.all_x())
-        ok = ok and init0 and rs[0][1].args[0].src() == 'm[i].flagdeleted'
-    r3.check(ok, 'RSET-clears-every-mark(0..numm)', u + ':pop3_rset',
-             'the clearing loop must run i from 0 while i < numm: with any other bound a message deleted earlier stays marked after RSET and is unlinked at QUIT')
-    other_clears = [(f.name, x.where) for f, x in clears if f.name not in ('pop3_rset', 'getlist')]
-    r3.check(not other_clears, 'marks-cleared-only-by-RSET-(and-initialisation)', u, 'other clearing sites: %s' % other_clears)
-    ok = len(ren) == 1 and ren[0][0].name == 'pop3_quit'
-    if ok:
-        f, c = ren[0]
-        g = f.guards(c) or []
-        ok = any(cc.src().endswith('m[i].flagdeleted') and t is False for cc, t in g) and \
-            any(cc.strip().k == 'call' and cc.strip().callee == 'str_start' and cc.strip().args[1].string == 'new/' and t is True for cc, t in g)
-        lits = [cc.args[1].string for cc in f.calls(('stralloc_copys', 'stralloc_cats')) if cc.args[1].string]
-        ok = ok and lits[:1] == ['cur/'] and ':2,' in lits
-    r3.check(ok, 'rename-only-undeleted-new/-to-cur/...:2,', u + ':pop3_quit', '')
-    r3.expect_min(5)
+            l = x.args[0].strip() if x.k == 'asg' and x.args and x.args[0] is not None else None
+            if l is not None and l.k == 'mem' and l.n.get('f') == 'flagdeleted':
+                (clears if x.op == '=' and x.args[1].const == 0 else marks).append((fn.name, x.where))
+    r3.check(bool(marks) and {f for f, _ in marks} == {'pop3_dele'}, 'mark-only-in-DELE', u, 'marking sites: %s' % marks)
+    r3.check({f for f, _ in clears} <= {'pop3_rset', 'getlist'} and any(f == 'pop3_rset' for f, _ in clears), 'marks-cleared-only-by-RSET-(and-initialisation)', u, 'clearing sites: %s' % clears)
+    rs = prog.fn('pop3_rset', u)
+    RH = TableHooks()
+    RH.entry = 'pop3_rset'
+    eng = Engine(db, prog, RH)
+    eng.run(rs, {'M[0].flagdeleted': fs(1), 'M[1].flagdeleted': fs(1), 'M[2].flagdeleted': fs(1)})
+    rep.count_states(eng.states, eng.transitions)
+    okr = bool(RH.returns) and all(all(store.get('M[%d].flagdeleted' % k) == 0 for k in range(3)) for store, _, _ in RH.returns) and all(v[0] for v in RH.sites.values())
+    r3.check(okr, 'RSET-clears-every-mark(0..numm)', u + ':pop3_rset',
+             'after RSET with three marked messages the marks are %s: a message deleted earlier stays marked after RSET and is unlinked at QUIT' %
+             [[store.get('M[%d].flagdeleted' % k) for k in range(3)] for store, _, _ in RH.returns][:2])
+    r3.expect_min(8)
 
     # ---- 4. start-up
     r4 = rep.rule('C19.4-start-up', 'R-ORDER', 'main: refuses uid 0, then chdir to the maildir, then getlist (m[] filled once from the priority queue), then the command loop')
